@@ -188,7 +188,10 @@ AfterEvery(cfg, o, o1, ln) ==
                  ELSE IF Complete(o1.snap[e]) THEN <<o1.snap[e]>> ELSE <<>>]
       o2 == [o1 EXCEPT !.fc = fc1]
       o3 == IF \E b \in DOMAIN o.hist : Range(o.hist[b]) \ Range(o1.hist[b]) # {} THEN Bump(o2, "evict") ELSE o2
-  IN AddW(o3, C08W(o, o2) \cup C13W(cfg, o, o2) \cup C09StructW(o2, changed) \cup C10ChildW(o, o2))
+      \* C08 / C03: an event is signalled complete although no bus has begun to process it yet (its handlers are still to come)
+      premature == {W("C08.premature", e, "", "", 0, "") :
+                      e \in {x \in 1..Len(o1.snap) : fc1[x] # <<>> /\ (x > Len(o.fc) \/ o.fc[x] = <<>>) /\ ~\E p \in o1.procB : p[2] = x}}
+  IN AddW(o3, C08W(o, o2) \cup C13W(cfg, o, o2) \cup C09StructW(o2, changed) \cup C10ChildW(o, o2) \cup premature)
 
 \* ------------------------------------------------------------------------
 \* Disp
@@ -245,13 +248,21 @@ StepDisp(cfg, o, ln) ==
 \* ------------------------------------------------------------------------
 \* x may start while y is open only if ... (C06); ex jumps the queue of y's awaited child only if ... (C05)
 SiblingsPar(cfg, x, y) == x.e = y.e /\ x.b = y.b /\ IsParallel(cfg, x.b)
+\* the open handlers a handler runs under: itself, the awaiting handler whose inline drain started it, and so on upwards
+RECURSIVE Starters(_, _, _)
+Starters(o, u, seen) ==
+  IF u.act \in seen THEN {} ELSE
+  {u} \cup (IF u.by = "in" /\ IsOpen(o, u.bya) THEN Starters(o, OpenAct(o, u.bya), seen \cup {u.act}) ELSE {})
+\* x and y run under two different handlers of the same event on a parallel_handlers bus (each of them draining inline): finding G9
+UnderParSiblings(cfg, o, x, y) ==
+  \E z1 \in Starters(o, x, {}) : \E z2 \in Starters(o, y, {}) : z1.act # z2.act /\ SiblingsPar(cfg, z1, z2)
 Excused6(cfg, o, x, y) ==
   \/ y.aw # 0
   \/ SiblingsPar(cfg, x, y)
   \/ IsParallel(cfg, y.b) /\ \E z \in o.open : z.act # y.act /\ z.e = y.e /\ z.b = y.b /\ z.aw # 0
 
 StepEnter(cfg, o, ln) ==
-  LET x == [act |-> ln.act, b |-> ln.b, e |-> ln.e, h |-> ln.h, aw |-> 0, by |-> ln.byk, t0 |-> ln.t,
+  LET x == [act |-> ln.act, b |-> ln.b, e |-> ln.e, h |-> ln.h, aw |-> 0, by |-> ln.byk, bya |-> ln.bya, t0 |-> ln.t,
             dl |-> IF ln.tmo < 0 THEN -1 ELSE ln.t + ln.tmo, sync |-> ln.sync,
             enc |-> {y.act : y \in {z \in o.open : z.aw # 0}}]
       key == <<ln.b, ln.e, ln.h>>
@@ -280,7 +291,7 @@ StepEnter(cfg, o, ln) ==
                y \in {z \in o.open : z.aw # 0 /\ ~Done(o, z.aw) /\ ln.e \notin Sub(o, z.aw) /\ ~SiblingsPar(cfg, x, z)
                                    /\ ~\E z2 \in o.open : z2.act # z.act /\ SiblingsPar(cfg, z2, z) /\ z2.aw # 0 /\ ln.e \in Sub(o, z2.aw)}}
       \* C06: cross-bus mutual exclusion
-      w6 == {W("C06.overlap", ln.e, ln.b, ln.h, y.act, ln.byk) : y \in {z \in o.open : ~Excused6(cfg, o, x, z)}}
+      w6 == {W("C06.overlap", ln.e, ln.b, ln.h, y.act, IF UnderParSiblings(cfg, o, x, y) THEN "parsib" ELSE ln.byk) : y \in {z \in o.open : ~Excused6(cfg, o, x, z)}}
       \* C09: event.event_bus inside a handler is the bus running it
       w9 == IF ln.rb # ln.b THEN {W("C09.event_bus", ln.e, ln.b, ln.h, ln.act, IF Len(o.snap[ln.e].path) > 1 /\ ln.rb = Last(o.snap[ln.e].path) THEN "lastpath" ELSE ln.rb)} ELSE {}
       \* C16: no handler of a stopped bus starts after stop() returned
